@@ -67,19 +67,21 @@ Print Assumptions C01_average.
 (** min / max (fix b2f85e2): the integer arguments (an integer, or text holding one: [int_args]) are
     compared exactly, the other numeric arguments ([float_args]) as doubles; the cell is the smaller /
     larger of the two extrema ([minmax_emit]), so an integer beyond 2^53 is reported digit for digit.
+    [minF] / [maxF]: the double extremum (by the IEEE [<]) of the non-NaN elements, None when there
+    is none - an infinite extremum is reported like any other.
     [numeric_args_split]: the two lists together are the numeric arguments. *)
 Theorem C01_min : forall e rows,
   acc_emit (fold_left acc_step rows (acc_empty (FMin e))) =
-  let m := fold_left (fun acc v => if fltb v acc then v else acc) (float_args e rows) f_inf in
+  let m := minF (float_args e rows) in
   Ok (minmax_emit true m (minZ (int_args e rows))).
 Proof. intros. apply min_emit. Qed.
 Print Assumptions C01_min.
 
 (** the same without the fold: the cell is ONE OF the numeric arguments ([candidates]: the integers as
     they are, the other numbers as doubles) and no argument is below it.  The hypothesis names what the
-    accumulator cannot tell apart: NaN (skipped) and the initial value +inf. *)
+    accumulator skips: NaN. *)
 Theorem C01_min_is_least : forall e rows v,
-  Forall (fun f => valid_binary prec emax f = true /\ f_is_nan f = false /\ f <> f_inf)
+  Forall (fun f => valid_binary prec emax f = true /\ f_is_nan f = false)
          (float_args e rows) ->
   acc_emit (fold_left acc_step rows (acc_empty (FMin e))) = Ok v ->
   candidates e rows <> [] ->
@@ -87,7 +89,7 @@ Theorem C01_min_is_least : forall e rows v,
 Proof. exact min_is_least. Qed.
 Print Assumptions C01_min_is_least.
 Theorem C01_max_is_greatest : forall e rows v,
-  Forall (fun f => valid_binary prec emax f = true /\ f_is_nan f = false /\ f <> f_neg_inf)
+  Forall (fun f => valid_binary prec emax f = true /\ f_is_nan f = false)
          (float_args e rows) ->
   acc_emit (fold_left acc_step rows (acc_empty (FMax e))) = Ok v ->
   candidates e rows <> [] ->
@@ -99,9 +101,18 @@ Example C01_min_max_beyond_2p53 :
   acc_emit (fold_left acc_step [ex_row (VInt 9007199254740995); ex_row (VInt 9007199254740993)] (acc_empty (FMax ex_e))) = Ok (VInt 9007199254740995).
 Proof. split; vm_compute; reflexivity. Qed.
 
+(** fix 04d0ab4: an extremum that is infinite is reported even when every argument is (the accumulator used to
+    start from +inf / -inf and could not tell that from "nothing seen"); NaN alone is nothing *)
+Example C01_all_infinite_extremum :
+  acc_emit (fold_left acc_step [ex_row (VFloat f_inf); ex_row (VFloat f_inf)] (acc_empty (FMin ex_e))) = Ok (VFloat f_inf) /\
+  acc_emit (fold_left acc_step [ex_row (VFloat f_neg_inf)] (acc_empty (FMax ex_e))) = Ok (VFloat f_neg_inf) /\
+  acc_emit (fold_left acc_step [ex_row (VFloat S754_nan)] (acc_empty (FMin ex_e))) = Ok VNone /\
+  acc_emit (fold_left acc_step [ex_row (VFloat S754_nan); ex_row (VInt 3)] (acc_empty (FMax ex_e))) = Ok (VInt 3).
+Proof. vm_compute. repeat split. Qed.
+
 Theorem C01_max : forall e rows,
   acc_emit (fold_left acc_step rows (acc_empty (FMax e))) =
-  let m := fold_left (fun acc v => if fltb acc v then v else acc) (float_args e rows) f_neg_inf in
+  let m := maxF (float_args e rows) in
   Ok (minmax_emit false m (maxZ (int_args e rows))).
 Proof. intros. apply max_emit. Qed.
 Print Assumptions C01_max.
